@@ -279,7 +279,7 @@ func statsStruct(p PageSpec, maxDef int) *TSt {
 
 // encodePage returns header+body bytes of one page (and of any page that has
 // to precede it).
-func encodePage(ch ChunkSpec, p PageSpec, dictIdx map[string]int) ([]byte, error) {
+func encodePage(ch ChunkSpec, p PageSpec, dictIdx map[string]int) ([]byte, int, error) {
 	col := ch.Col
 	n := len(p.Defs)
 	if col.MaxDef == 0 {
@@ -296,7 +296,7 @@ func encodePage(ch ChunkSpec, p PageSpec, dictIdx map[string]int) ([]byte, error
 		if p.Feature == "levels-bitpacked" || p.Feature == "rep-bitpacked" {
 			repBytes = msbBitPack(p.Reps, bitWidth(col.MaxRep))
 		} else if repBytes, err = EncodeSegs(p.Reps, bitWidth(col.MaxRep), repSegs, p.Pad); err != nil {
-			return nil, fmt.Errorf("rep levels: %v", err)
+			return nil, 0, fmt.Errorf("rep levels: %v", err)
 		}
 	}
 	if col.MaxDef > 0 {
@@ -306,7 +306,7 @@ func encodePage(ch ChunkSpec, p PageSpec, dictIdx map[string]int) ([]byte, error
 		if p.Feature == "levels-bitpacked" || p.Feature == "def-bitpacked" {
 			defBytes = msbBitPack(p.Defs, bitWidth(col.MaxDef))
 		} else if defBytes, err = EncodeSegs(p.Defs, bitWidth(col.MaxDef), defSegs, p.Pad); err != nil {
-			return nil, fmt.Errorf("def levels: %v", err)
+			return nil, 0, fmt.Errorf("def levels: %v", err)
 		}
 	}
 	enc := EncPlain
@@ -324,7 +324,7 @@ func encodePage(ch ChunkSpec, p PageSpec, dictIdx map[string]int) ([]byte, error
 		}
 		runs, err := EncodeSegs(idx, w, GreedySegs(idx), 0)
 		if err != nil {
-			return nil, err
+			return nil, 0, err
 		}
 		values = append([]byte{byte(w)}, runs[4:]...)
 		enc = EncPlainDict
@@ -357,6 +357,11 @@ func encodePage(ch ChunkSpec, p PageSpec, dictIdx map[string]int) ([]byte, error
 		enc = 6
 	default:
 		values = PlainEncode(col.Type, p.Values)
+		if col.Type == TypeBoolean && len(p.Values)%8 != 0 && p.Pad != 0 {
+			// the unused high bits of the last byte of PLAIN booleans are unspecified: fill them with junk
+			k := uint(len(p.Values) % 8)
+			values[len(values)-1] |= byte(0xff*int(p.Pad&1)) << k
+		}
 	}
 	var out []byte
 	if p.Feature == "index-before" {
@@ -375,7 +380,7 @@ func encodePage(ch ChunkSpec, p PageSpec, dictIdx map[string]int) ([]byte, error
 		}
 		cv, err := Compress(ch.Codec, values, ch.Literal)
 		if err != nil {
-			return nil, err
+			return nil, 0, err
 		}
 		var nulls, rows int64
 		for i := range p.Defs {
@@ -397,13 +402,13 @@ func encodePage(ch ChunkSpec, p PageSpec, dictIdx map[string]int) ([]byte, error
 		body := append(append(append([]byte{}, rb...), db...), cv...)
 		ph := NewSt().SetI32(1, PageData2).SetI32(2, int64(len(rb)+len(db)+len(values))).SetI32(3, int64(len(body))).SetSt(8, h2)
 		out = append(out, thriftBytes(ph)...)
-		return append(out, body...), nil
+		return append(out, body...), len(out) + len(rb) + len(db) + len(values), nil
 	}
 	levels = append(append(levels, repBytes...), defBytes...)
 	payload := append(levels, values...)
 	body, err := Compress(ch.Codec, payload, ch.Literal)
 	if err != nil {
-		return nil, err
+		return nil, 0, err
 	}
 	dp := NewSt().SetI32(1, int64(n)).SetI32(2, int64(enc)).SetI32(3, EncRLE).SetI32(4, EncRLE)
 	switch p.Feature {
@@ -432,7 +437,7 @@ func encodePage(ch ChunkSpec, p PageSpec, dictIdx map[string]int) ([]byte, error
 		ph.SetI32(1, PageDict).SetSt(7, NewSt().SetI32(1, int64(n)).SetI32(2, EncPlain))
 	}
 	out = append(out, thriftBytes(ph)...)
-	return append(out, body...), nil
+	return append(out, body...), len(out) + len(payload), nil
 }
 
 func valKey(v Val) string { return fmt.Sprintf("%x/%x", v.Bits, v.Bytes) }
@@ -442,9 +447,11 @@ func valKey(v Val) string { return fmt.Sprintf("%x/%x", v.Bits, v.Bytes) }
 func WriteFile(spec FileSpec) ([]byte, error) {
 	out := append([]byte{}, Magic...)
 	var rgs []TVal
+	var ccs []*TSt
 	for _, rg := range spec.RowGroups {
 		var chunks []TVal
-		var total int64
+		var total, ctotal int64
+		rgStart := int64(len(out))
 		for _, ch := range rg.Chunks {
 			start := int64(len(out))
 			var nvals, usize int64
@@ -480,11 +487,12 @@ func WriteFile(spec FileSpec) ([]byte, error) {
 			}
 			dataOff := int64(len(out))
 			for _, p := range ch.Pages {
-				b, err := encodePage(ch, p, dictIdx)
+				b, pu, err := encodePage(ch, p, dictIdx)
 				if err != nil {
 					return nil, fmt.Errorf("column %s: %v", ch.Col.Name(), err)
 				}
 				out = append(out, b...)
+				usize += int64(pu)
 				if ch.Col.MaxDef > 0 {
 					nvals += int64(len(p.Defs))
 				} else {
@@ -492,7 +500,6 @@ func WriteFile(spec FileSpec) ([]byte, error) {
 				}
 			}
 			csize := int64(len(out)) - start
-			usize += csize // not exact for compressed codecs; readers do not rely on it
 			codec := ch.Codec
 			switch ch.Feature {
 			case "codec-lzo":
@@ -522,6 +529,8 @@ func WriteFile(spec FileSpec) ([]byte, error) {
 			if spec.Extras {
 				md.SetList(8, TStruct, []TVal{{T: TStruct, S: NewSt().SetStr(1, "k").SetStr(2, "v")}})
 				md.SetSt(12, NewSt().SetI64(3, 0))
+				// encoding_stats: one entry (data pages, PLAIN, count)
+				md.SetList(13, TStruct, []TVal{{T: TStruct, S: NewSt().SetI32(1, PageData).SetI32(2, EncPlain).SetI32(3, int64(len(ch.Pages)))}})
 			}
 			fo := start
 			switch spec.FileOffset {
@@ -531,18 +540,38 @@ func WriteFile(spec FileSpec) ([]byte, error) {
 				fo = start + csize
 			}
 			cc := NewSt().SetI64(2, fo).SetSt(3, md)
+			ccs = append(ccs, cc)
 			chunks = append(chunks, TVal{T: TStruct, S: cc})
-			total += csize
+			total += usize
+			ctotal += csize
 		}
+		// total_byte_size: "total byte size of all the uncompressed column data in this row group"
 		r := NewSt().SetList(1, TStruct, chunks).SetI64(2, total).SetI64(3, rg.NumRows)
+		if spec.Extras {
+			r.SetI64(5, rgStart).SetI64(6, ctotal).SetI32(7, int64(len(rgs)))
+		}
 		rgs = append(rgs, TVal{T: TStruct, S: r})
+	}
+	if spec.Extras {
+		// a page-index region between the last row group and the footer (what current parquet-mr / arrow writers emit):
+		// one (fake but well-formed thrift) ColumnIndex and OffsetIndex per chunk, referenced from the ColumnChunk
+		for _, cc := range ccs {
+			ci := thriftBytes(NewSt().SetList(1, TTrue, nil).SetI32(4, 0))
+			cc.SetI64(6, int64(len(out))).SetI32(7, int64(len(ci)))
+			out = append(out, ci...)
+		}
+		for _, cc := range ccs {
+			oi := thriftBytes(NewSt().SetList(1, TStruct, nil))
+			cc.SetI64(4, int64(len(out))).SetI32(5, int64(len(oi)))
+			out = append(out, oi...)
+		}
 	}
 	var schema []TVal
 	var rows int64
 	for _, rg := range spec.RowGroups {
 		rows += rg.NumRows
 	}
-	for _, e := range spec.Schema {
+	for i, e := range spec.Schema {
 		s := NewSt().SetStr(4, e.Name)
 		if e.Type >= 0 {
 			s.SetI32(1, int64(e.Type))
@@ -555,6 +584,17 @@ func WriteFile(spec FileSpec) ([]byte, error) {
 		}
 		if e.CType >= 0 {
 			s.SetI32(6, int64(e.CType))
+		}
+		if spec.Extras {
+			if i == 0 && e.Rep < 0 {
+				s.SetI32(3, 0) // some writers mark the root REQUIRED
+			}
+			if e.Type >= 0 {
+				s.SetI32(9, int64(i)) // field_id
+			}
+			if e.Type == TypeByteArray && e.CType == 0 {
+				s.SetSt(10, NewSt().SetSt(1, NewSt())) // LogicalType.STRING
+			}
 		}
 		schema = append(schema, TVal{T: TStruct, S: s})
 	}
